@@ -3,6 +3,7 @@ from . import lpcommon as lc
 from .. import refmodel as rm
 
 ID = 'C05'
+ANCHOR_FILES = ['solver/lp_solver.py', 'solver/model.py']
 LEVEL = 'exploration'
 RULE = ('two-sided HR/SM-shaped and SPA specs (ties on both sides, shared lecturers, lecturer capacity below the sum of '
         'project capacities, zero capacities, several projects of one lecturer per student) with -stab and 0-2 criteria '
